@@ -406,7 +406,8 @@ func (d *Decoder) GetInt64(name string) (int64, bool) {
 			}
 			return 0, false
 		}
-		if i > math.MaxInt64 || i < math.MinInt64 {
+		// float64(math.MaxInt64) is 2^63, which does not fit: the upper bound is exclusive.
+		if i >= 1<<63 || i < math.MinInt64 {
 			if d.err == nil {
 				d.err = fmt.Errorf("%s: integer parameter %s is overflow", d.pkg, name)
 			}
